@@ -95,8 +95,6 @@ def check_tap(name, acfg, hist, stages, out, cov):
     order = TAP_ORDER[typ]
     allowed_nodes = set(s.get("starting_nodes") or []) | {s["default_starting_node"]}
     c2 = ((s.get("kill_chain") or {}).get("COMMAND_AND_CONTROL") or {}).get("c2_server_name")
-    if c2:
-        allowed_nodes.add(c2)
     acts = [(h.timestep, h) for h in hist if h.action != "do-nothing"]
     cov.inc("executions_observed", len(acts))
     cov.inc("tap_actions_failed", sum(1 for _, h in acts if h.response.status != "success"))
@@ -109,6 +107,8 @@ def check_tap(name, acfg, hist, stages, out, cov):
             break
     for t, h in acts:
         node = h.parameters.get("node_name") or h.parameters.get("source_node")
+        if node is not None and node == c2 and h.action.startswith("c2-server-"):
+            continue  # commands issued through the configured C2 server are addressed to that server's node
         if node is not None and node not in allowed_nodes:
             out.append((f"acts-from-unconfigured-node/{typ}", f"{name}: step {t}: {h.action} from node {node}, configured nodes {sorted(allowed_nodes)}"))
             break
